@@ -38,7 +38,7 @@ TEXT = {
         'text': 'Machine-checked theorem C06_step: with a request pending, Gen.Step (regenerated from cpu.go) equals the abstract interrupt controller written from '
                 'the property text (NMI always; maskable iff IFF1; modes 1/2 push PC and vector, clearing IFF1 and IFF2; consumed; refused = ordinary instruction, '
                 'request stays) for EVERY state — all control bits, PC/SP wrap, vector byte and I universally quantified; C06_pending by induction over any number of '
-                'Steps; EI/DI/RETN/RETI obligations. Mode 0 with ANY supplied bytes: proved equal to the recorded description of this implementation (C06_step_any: one reference instruction through the overlay bus; every supplied instruction, every state) — so the deviation from the Z80 is exactly the recorded KF-1/KF-2 and nothing else.',
+                'Steps; EI/DI/RETN/RETI obligations. Mode 0 with ANY supplied bytes: proved equal to the recorded description of this implementation (C06_step_any: one reference instruction through the overlay bus; every supplied instruction, every state) — so the deviation from the Z80 is exactly the recorded KF-1/KF-2 and nothing else. The four request constructors of z80.go are translated too and proved to build exactly (type, d :: others) etc. for every argument (C06Ctor).',
         'note': NOTE_COMMON + ' Mode 0 deviates from the Z80 as recorded (known findings); that it deviates in no other way is proved.',
         'technique': 'Lean 4 proof: regenerated processInterrupt/Step = abstract controller (simp), induction for pending requests; differential correspondence incl. known-finding classification',
     },
@@ -70,14 +70,14 @@ TEXT = {
         'text': 'Machine-checked over the translated Run: the cancellation flag is consulted before every Step and nowhere else, so a cancelled Run returns ctx.Err() with the CPU in the state after a whole number of Steps '
                 '(C13_boundary, induction); the watcher/loop hand-off protocol (action lists extracted from the source on every run) is explored exhaustively as a two-thread transition system whose reachable set is closed: '
                 'ctxErr is never read without an ordering store/load pair, and the watcher can always terminate after Run returns (deferred cancel). '
-                'Partial: bounded delay, goroutine accounting and race-detector facts live in the Go runtime and are not modelled.',
+                'Partial: bounded delay, goroutine accounting and race-detector facts live in the Go runtime and are not modelled; they are supported by executions (harness ctx: cancellation before / during the run, with a refused request pending, with a slow device, goroutine counts, race detector).',
         'note': NOTE_COMMON + ' Go memory model assumed for atomic store/load ordering.',
         'technique': 'Lean 4 proof: induction on the translated loop + kernel-decided closed-state-set exploration of the extracted cancellation protocol',
     },
     'C14': {
         'text': 'Machine-checked: for EVERY state (all 256 R values, any instruction bytes) a Step without pending request leaves I unchanged and advances the low seven bits of R by exactly the number of opcode fetches '
                 '(1 unprefixed incl. every halted Step and every repetition of block instructions, 2 for CB/ED/DD/FD, 3 for DDCB/FDCB — this project\'s count), bit 7 kept, wrap 0x7F→0x00; only LD I,A / LD R,A write I/R (all eight bits); '
-                'LD A,I / LD A,R deliver the current value with S/Z/H/N/PV=IFF2/C-preserved flags.',
+                'LD A,I / LD A,R deliver the current value with S/Z/H/N/PV=IFF2/C-preserved flags. A Step that ACCEPTS a request (NMI, mode 1, mode 2) leaves the whole IR pair as it was, for every state (C14Accept).',
         'note': NOTE_COMMON,
         'technique': 'Lean 4 proof: C01 equality + frame theorem (exec leaves IR alone for all instructions except the four LDs) + decide over decode tables; differential correspondence',
     },
@@ -89,11 +89,11 @@ TEXT = {
         'technique': 'Lean 4 proof: decide +kernel over the complete regenerated tables and images (finite quantifier, fully enumerated in the kernel)',
     },
     'C15': {
-        'text': 'Machine-checked theorems over a hand-written model of memio.go: for every slice length 0..65536 and EVERY history of Set/Put (Out) operations, Get (In) returns the value last written to that address or 0, '
+        'text': 'Machine-checked: every method of memio.go, TRANSLATED from the source on every run (Z80/Gen/MemIO.lean, Option monad, none = panic), equals the store function of the heap model for every receiver and argument, panics included (C15Gen; Clone and Clear for every visiting order of range-over-map); the heap-of-objects machine driven by the translated methods EQUALS the hand-written one on every well-typed world, hence on every operation sequence (C15Bisim.runGen_eq). About that machine: for every slice length 0..65536 and EVERY history of Set/Put (Out) operations, Get (In) returns the value last written to that address or 0, '
                 '0 beyond the slice where writes are ignored (induction over histories); MapMemory likewise with default 0xC7, Put wrapping past 0xFFFF for blocks up to 64 KiB, Clear; Clone returns a fresh heap object so writes through either '
-                'handle never show through the other; Equal is true exactly for identical contents and false for non-MapMemory arguments. The model is tied to the real types by differential operation sequences on every run.',
-        'note': 'Trusted: Lean kernel; the hand-written model Z80/Spec/MemIO.lean (validated against memio.go by the correspondence on every run, not derived from it); Go slice/map reference semantics as modelled by a heap of objects.',
-        'technique': 'Lean 4 proof: induction over operation histories on a hand-written heap model; differential operation-sequence correspondence real types vs model',
+                'handle never show through the other; Equal is true exactly for identical contents and false for non-MapMemory arguments. Real types, hand model and translated-method machine are run on the same operation sequences on every run.',
+        'note': 'Trusted: Lean kernel; the second translator tools/go2lean/memiotr.go and its prelude Z80/GoStore.lean (reading of Go slice/map primitives; validated on every run by executing the translated methods next to the real ones); the bookkeeping of which variable holds which object (Z80/Spec/MemIO.lean: Go slice/map reference semantics as a heap of objects), validated by the correspondence; Go int modelled unbounded.',
+        'technique': 'Lean 4 proof: regenerated methods = model functions (all inputs), bisimulation to the heap model, induction over operation histories; differential operation-sequence correspondence real types vs model vs translated methods',
     },
     'C19': {
         'text': 'Machine-checked layout theorems over a hand-written model of the two commands, for EVERY image, offset and name: cim2bin output is FE, start, end, exec as little-endian words followed by the image unmodified '
@@ -128,7 +128,7 @@ TEXT = {
         'text': 'Machine-checked over regenerated structural facts and the regenerated Step: every field of the Go structs CPU, States, GPR, SPR, Register is exported and the model CPU record consists of exactly those fields (C10_public_fields, C10_model_state: adding a hidden field breaks the theorem); '
                 'the package has no variable besides ErrBreakPoint and only Run starts a goroutine or touches sync/atomic (C10_no_globals; the translator refuses any other global); Step is a function of that state, so a run continued from a snapshot taken at ANY boundary equals the original run '
                 '(C10_snapshot: stepN (m+n) = stepN m then stepN n, induction) and ANY interleaving of two CPUs equals the two separate runs (C10_isolation, induction over schedules). '
-                'Supported dynamically: real-vs-real rebuild of the CPU from its public state after every Step on generated programs with injected interrupts, and concurrent CPUs under the race detector.',
+                'Supported dynamically: real-vs-real rebuild of the CPU from its public state after every Step on generated programs with injected interrupts; memory-kind independence (every vector also with z80.DumbMemory and z80.MapMemory holding the same bytes); the host\'s request objects and breakpoint map compared before and after (object identity is not part of the Lean state: the translator refuses writes through cpu.Interrupt, nil comparisons of slices and type assertions); concurrent CPUs under the race detector.',
         'note': NOTE_COMMON + ' Data-race freedom of concurrent CPUs is a runtime fact supported by the race detector run, not proved.',
         'technique': 'Lean 4 proof over regenerated struct/global facts + induction (snapshot composition, schedule interleaving); real-vs-real snapshot-rebuild correspondence and race-detector run as support',
     },
@@ -136,8 +136,8 @@ TEXT = {
         'text': 'Machine-checked on the regenerated CPU model (Gen.Step via C01) executing the BIOS bytes that go2lean extracts from tinycpm.go on every run: from the vector at 0005h with C=2 the stub writes exactly E to port 0 and returns to the address on the stack '
                 'in 7 Steps; with C=9, for EVERY string without $ (any length, any byte values incl. 00h and >=80h, at any address, wrapping past FFFFh) followed by $, it writes exactly those bytes to port 0 in order and returns after 6*len+9 Steps (induction over the string); '
                 'in both cases SP is restored, memory (caller code included) is untouched, BC/HL preserved; a jump to 0 halts at FF03h; the console model (port-0 writes in order, everything else a warning) appends exactly the printed bytes. '
-                'tinycpm.IO/Memory themselves are modelled by hand and tied by the correspondence on the real package.',
-        'note': NOTE_COMMON + ' tinycpm.IO (writer/logger plumbing) is modelled by hand.',
+                'The Go glue (tinycpm.Memory.Get/Set/put, tinycpm.IO.In/Out/SetStdout/SetWarnLogger) is TRANSLATED on every run (Z80/Gen/CPMGlue.lean) and proved to be the console / 64 KiB byte-array model for every argument (C18Glue: glue_console for ANY port log: exactly `console log` reaches the configured writer, `warnings log` warnings; Get/Set total; put copies a fitting block).',
+        'note': NOTE_COMMON + ' tinycpm constructors and LoadFile are not translated (their statements are pinned by shape; the pages NewMemory installs are extracted as data); writers and loggers are opaque identities; several machines in one process are covered by executions (harness cpmpar, race detector), not by a theorem.',
         'technique': 'Lean 4 proof: per-instruction Step lemmas through C01, composed symbolic execution of the regenerated stub bytes, induction over the string; differential correspondence on the real tinycpm package',
     },
     'C16': {
